@@ -56,11 +56,11 @@ def specField (o : Oracle) (f : FieldOp) (node : Option JTree) : Bool :=
 def commas (n : Nat) : Int := if n = 0 then 0 else (n : Int) - 1
 
 mutual
-  /-- length of the compact JSON text (nested strings / keys need no escaping) -/
+  /-- length of the compact JSON text of the value as it stands in the event -/
   def encLen : JTree → Int
     | .arr xs => 2 + encLenList xs + commas xs.length
     | .obj kvs => 2 + encLenFields kvs + commas kvs.length
-    | .str s => (s.length : Int) + 2
+    | .str s => (escLen s : Int) + 2
     | .null => 4
     | .bool true => 4
     | .bool false => 5
@@ -70,7 +70,7 @@ mutual
     | x :: xs => encLen x + encLenList xs
   def encLenFields : List (Bytes × JTree) → Int
     | [] => 0
-    | (k, v) :: kvs => (k.length : Int) + 3 + encLen v + encLenFields kvs
+    | (k, v) :: kvs => (escLen k : Int) + 3 + encLen v + encLenFields kvs
 end
 
 def specLen (o : Oracle) (l : LenCmp) (ev : JTree) : Bool :=
@@ -133,6 +133,7 @@ end
 structure Relax where
   lower     : Bool   -- case-insensitive short-cuts see lengths that lower-casing changes
   container : Bool   -- array / object seen as one NUL byte by a field op
+  escapes   : Bool   -- byte_len_cmp over an array / object holding strings or keys with JSON escapes
 deriving Repr
 
 /-- the lower-casing oracle changes a length, or does not commute with the truncation the code
@@ -150,6 +151,21 @@ def lowerShape (o : Oracle) (f : FieldOp) (d : Option Bytes) : Bool :=
       o.lower ((bytesOf d).drop (blen d - m)) != (o.lower (bytesOf d)).drop (blen d - m)
     | _ => false))
 
+mutual
+  /-- some string or key inside needs JSON escaping -/
+  def hasEsc : JTree → Bool
+    | .arr xs => hasEscList xs
+    | .obj kvs => hasEscFields kvs
+    | .str s => escLen s != s.length
+    | _ => false
+  def hasEscList : List JTree → Bool
+    | [] => false
+    | x :: xs => hasEsc x || hasEscList xs
+  def hasEscFields : List (Bytes × JTree) → Bool
+    | [] => false
+    | (k, v) :: kvs => escLen k != k.length || hasEsc v || hasEscFields kvs
+end
+
 def both (quirk : Bool) (sv cv : Bool) : Bool × Bool :=
   if quirk then (sv || cv, !sv || !cv) else (sv, !sv)
 
@@ -160,7 +176,10 @@ mutual
       both ((r.container && isContainer node) || (r.lower && lowerShape o f (getOf node)))
         (specField o f node) (fieldCheck o f (getOf node))
     | .lenCmp l =>
-      both false (specLen o l ev) false
+      -- the as-coded count lies anywhere between "all unescaped" and "all raw": admit both answers
+      if r.escapes && l.kind == .byte && isContainer (dig ev l.path) &&
+          (match dig ev l.path with | some t => hasEsc t | none => false)
+      then (true, true) else both false (specLen o l ev) false
     | .tsCmp t => both false (specTs o now t ev) false
     | .checkType c => both false (specType c ev) false
     | .and ops => admitsAll r o now ev ops
